@@ -49,6 +49,18 @@ def wellformed_nuts(doc):
     return None
 
 
+def embedded_illformed(doc):
+    """Nuts id/thumbprint rules applied to verification methods EMBEDDED in a relationship (not listed under verificationMethod)"""
+    listed = {vm["id"] for vm in doc["vms"]}
+    for rel in ("auth", "assertion", "keyAgr", "capInv", "capDel"):
+        for vm in doc[rel]:
+            if vm["id"] in listed:
+                continue
+            if not vm["frag"] or vm["pfx"] != doc["id"] or vm["key"] in ("", "!") or vm["key"] != vm["frag"]:
+                return f"{rel} {vm['id']}"
+    return None
+
+
 def run(ctx):
     ctx.facts()
     thms = ctx.build_and_audit(["NutsProofs.Props.C09"])
@@ -103,18 +115,21 @@ def run(ctx):
     # ---- direct property oracles on the implementation's own outputs
     kinds, classes, labels = Counter(), Counter(), Counter()
     distinct = set()
-    n_pairs = n_ok = 0
+    n_pairs = n_ok = n_embedded_illformed = 0
     oracle = Counter()
     cur_obs = ""
-    reported = set()
+    reported = {}
     verified = True   # does the current history run the DAG signature verifier before the callback?
 
     def report(sig, what, i):
-        oracle[sig] += 1
         if sig in reported:
+            if reported[sig]:
+                oracle[sig] += 1
             return
-        reported.add(sig)
-        ctx.violation("C09:" + sig, what + f" (impl.out line {i})", sig + ".jsonl", history_ops(i))
+        # ctx.violation returns False when the signature is a listed open finding (printed as KNOWN-FINDING, not counted)
+        reported[sig] = ctx.violation("C09:" + sig, what + f" (impl.out line {i})", sig + ".jsonl", history_ops(i))
+        if reported[sig]:
+            oracle[sig] += 1
 
     for i, line in enumerate(impl):
         if i >= len(ops) or not ops[i]:
@@ -159,6 +174,11 @@ def run(ctx):
         wf = wellformed_nuts(doc)
         if wf:
             report("accepted-ill-formed-document", "accepted a document violating the Nuts method rules at " + wf, i)
+        emb = embedded_illformed(doc)
+        if emb:
+            n_embedded_illformed += 1
+            report("accepted-embedded-method-violating-nuts-rules", "accepted a document whose embedded verification method breaks the "
+                   "Nuts id/thumbprint rules: " + emb, i)
         tx = op["tx"]
         if tx.get("embedded"):
             if tx["embeddedDid"] != doc["idID"]:
@@ -206,5 +226,6 @@ def run(ctx):
                        "distinct_nontrivial = distinct (generator kind, outcome class, create/update, several prevs)")
     ctx.cov["input_distribution"] = {"histories": sum(labels.values()), "history_kinds": dict(sorted(labels.items())),
                                      "pair_kinds": dict(sorted(kinds.items())), "outcome_classes": dict(sorted(classes.items())),
-                                     "accepted": n_ok, "rejected": n_pairs - n_ok}
+                                     "accepted": n_ok, "rejected": n_pairs - n_ok,
+                                     "accepted_with_ill_formed_embedded_method(known finding)": n_embedded_illformed}
     ctx.cov["samples"] = [impl[1][:300] if len(impl) > 1 else "", impl[2][:300] if len(impl) > 2 else ""]
